@@ -46,7 +46,7 @@ func (ss *SlotScope) SetSlot(name string, content *SlotContent) {
 // evalSlot processes a <slot> element and inserts the appropriate content.
 // If slot content was provided by the component user, use that.
 // Otherwise, render the fallback content (children of the slot element).
-func (v *Vue) evalSlot(ctx VueContext, node *html.Node, slotScope *SlotScope) ([]*html.Node, error) {
+func (v *Vue) evalSlot(ctx VueContext, node *html.Node, slotScope *SlotScope, depth int) ([]*html.Node, error) {
 	slotName := helpers.GetAttr(node, "name")
 	if slotName == "" {
 		slotName = "default"
@@ -102,7 +102,7 @@ func (v *Vue) evalSlot(ctx VueContext, node *html.Node, slotScope *SlotScope) ([
 				}
 
 				// Evaluate the template content (children of the template)
-				children, err := v.evaluateChildren(ctx, slotContent.TemplateNode, 0)
+				children, err := v.evaluateChildren(ctx, slotContent.TemplateNode, depth+1)
 				if err != nil {
 					return nil, err
 				}
@@ -129,7 +129,7 @@ func (v *Vue) evalSlot(ctx VueContext, node *html.Node, slotScope *SlotScope) ([
 	// No explicit slot content - use fallback (children of the slot element)
 	if node.FirstChild != nil {
 		// Evaluate the fallback content
-		return v.evaluateChildren(ctx, node, 0)
+		return v.evaluateChildren(ctx, node, depth+1)
 	}
 
 	return []*html.Node{}, nil
